@@ -220,17 +220,17 @@ Proof.
       assert (Hrest' : okl ((pj, sc) :: swap_remove rest k)) by (eapply okl_perm; [symmetry; exact Hperm | exact Hrest]).
       apply okl_cons in Hrest'. destruct Hrest' as (Hpj & _ & Hsr).
       destruct (or_f_good pc pj Hpc Hpj) as (p & Ep & Upp & Sp). rewrite Ep. cbn [bind].
-      assert (Hc : forall a, cnt ((pc, sc) :: rest) a = cnt ((pc, sc) :: (pj, sc) :: swap_remove rest k) a).
-      { intros a. rewrite !cnt_cons. rewrite <- (cnt_perm _ _ a Hperm). rewrite cnt_cons. reflexivity. }
-      assert (Hd : forall a, den_els ((pc, sc) :: rest) a = den_els ((pc, sc) :: (pj, sc) :: swap_remove rest k) a).
-      { intros a. rewrite !den_els_cons. rewrite <- (den_els_perm _ _ a Hperm). rewrite den_els_cons. reflexivity. }
+      assert (Hc : forall a, cnt rest a = (if sden pj a then 1 else 0) + cnt (swap_remove rest k) a).
+      { intros a. rewrite <- (cnt_perm _ _ a Hperm). rewrite cnt_cons. reflexivity. }
+      assert (Hd : forall a, den_els rest a = sden pj a && sden sc a || den_els (swap_remove rest k) a).
+      { intros a. rewrite <- (den_els_perm _ _ a Hperm). rewrite den_els_cons. reflexivity. }
       destruct (IH (p, sc) (swap_remove rest k) k) as (cur' & rest' & E & K1 & K2 & K3 & K4).
       * lia.
       * apply okl_cons. auto.
-      * intros a. pw a. rewrite Hc in Hex. bgo a.
+      * intros a. pw a. rewrite cnt_cons in *. rewrite Hc in Hex. bgo a.
       * exists cur', rest'. split; [exact E|]. repeat split; auto.
-        -- intros a. rewrite K2, Hc. pw a. rewrite Hc in Hex. bgo a.
-        -- intros a. rewrite K3, Hd. pw a. bgo a.
+        -- intros a. rewrite K2. pw a. rewrite !cnt_cons in *. rewrite Hc in *. bgo a.
+        -- intros a. rewrite K3. pw a. rewrite !den_els_cons. rewrite Hd. bgo a.
         -- intros Hs. apply K4. unfold satl in *. inversion Hs as [|? ? [a Ha] Hs']; subst.
            constructor.
            ++ exists a. simpl in *. rewrite Sp, Ha. reflexivity.
@@ -265,7 +265,7 @@ Proof.
            ++ intros a. rewrite J2, <- app_assoc. simpl. rewrite !cnt_app, K2. reflexivity.
            ++ intros a. rewrite J3, <- app_assoc. simpl. rewrite !den_els_app, K3. reflexivity.
            ++ intros Hs. apply J4. rewrite <- app_assoc. simpl. unfold satl in *.
-              apply Forall_app in Hs. destruct Hs as [S1 S2]. apply Forall_app. split; auto. apply K4. exact S2.
+              apply Forall_app in Hs. destruct Hs as [S1 S2]. apply Forall_app. split; [exact S1 | apply K4; exact S2].
 Qed.
 
 Lemma compress_spec node : okl node -> excl node ->
